@@ -84,6 +84,10 @@ func c32KeyOf(uid string, sid, mid uint64) int {
 	return k
 }
 
+// c32Reach records a reachability witness. The label is not a constant at the call site, so the
+// labels each entry must reach are listed per entry in check.json ("witnesses").
+func c32Reach(label string) { zzsym.Reach(label) }
+
 // c32Time: a Unix second in [0, 2^30), bounded by construction (no solver query needed).
 func c32Time(name string) int64 { return int64(zzsym.U32(name) >> 2) }
 
@@ -226,14 +230,14 @@ func c32CeilSeconds(ttl time.Duration) int64 {
 }
 
 // idle reports whether every delivery candidate of the entry (committed row, outstanding
-// attempts) was delivered at least ttlSec seconds before the clock.
+// attempts) was delivered at or before clock - ttlSec.
 func (s *c32State) idle(e *c32Entry, ttlSec int64) bool {
 	all := true
 	if e.committed {
-		all = all && s.now-e.row.DeliveredAt >= ttlSec
+		all = all && e.row.DeliveredAt <= s.now-ttlSec
 	}
 	for i := range e.attempts {
-		all = all && s.now-e.attempts[i].row.DeliveredAt >= ttlSec
+		all = all && e.attempts[i].row.DeliveredAt <= s.now-ttlSec
 	}
 	return all
 }
@@ -288,9 +292,9 @@ func (s *c32State) bindResult(k int, clock bool) {
 	res := s.t.BindResult(row)
 	if k < 0 || !s.admits(k) {
 		if k < 0 {
-			zzsym.Reach("bind-invalid")
+			c32Reach("bind-invalid")
 		} else {
-			zzsym.Reach("bind-over-limit")
+			c32Reach("bind-over-limit")
 		}
 		zzsym.Assert(!res.Bound && !res.Added && !res.Token.Valid(), "a row that must be rejected was bound")
 		zzsym.Assert(res.PendingCount == before, "rejected BindResult changed PendingCount")
@@ -301,9 +305,9 @@ func (s *c32State) bindResult(k int, clock bool) {
 	zzsym.Assert(s.fresh(res.Token), "bind token reused")
 	added := s.modelBind(k, row, res.Token)
 	if added {
-		zzsym.Reach("bind-new")
+		c32Reach("bind-new")
 	} else {
-		zzsym.Reach("bind-again")
+		c32Reach("bind-again")
 	}
 	zzsym.Assert(res.Added == added, "BindResult.Added differs from the model")
 	zzsym.Assert(res.PendingCount == s.size(), "BindResult.PendingCount differs from the model")
@@ -319,7 +323,7 @@ func (s *c32State) bindCompat(k int, clock bool) {
 		zzsym.Assert(s.t.PendingCount() == before, "rejected Bind changed PendingCount")
 		return
 	}
-	zzsym.Reach("bind-compat")
+	c32Reach("bind-compat")
 	zzsym.Assert(ok, "Bind rejected a valid row")
 	e := &s.m[k]
 	if !e.present {
@@ -356,7 +360,7 @@ func (s *c32State) bindBatch(keys []int, clock bool) {
 			}
 			shardUsed[shard] = true
 			if !s.admits(k) {
-				zzsym.Reach("batch-over-limit")
+				c32Reach("batch-over-limit")
 				zzsym.Assert(!res.Tokens[i].Valid(), "BindBatch bound a row over the session limit")
 				continue
 			}
@@ -375,7 +379,7 @@ func (s *c32State) bindBatch(keys []int, clock bool) {
 		}
 	}
 	if bound == 2 {
-		zzsym.Reach("batch-two")
+		c32Reach("batch-two")
 	}
 	zzsym.Assert(res.Bound == bound, "BindBatch.Bound differs from the model")
 	zzsym.Assert(res.Added == added, "BindBatch.Added differs from the model")
@@ -439,14 +443,14 @@ func (s *c32State) opFinishBind() {
 	a, ok := e.takeAttempt(tok)
 	zzsym.Assert(got == ok, "FinishBind result differs from the model")
 	if ok {
-		zzsym.Reach("finish")
+		c32Reach("finish")
 		if e.committed {
-			zzsym.Reach("finish-redelivery")
+			c32Reach("finish-redelivery")
 		}
 		e.committed = true
 		e.row = a.row
 	} else {
-		zzsym.Reach("finish-stale")
+		c32Reach("finish-stale")
 	}
 }
 
@@ -466,17 +470,17 @@ func (s *c32State) opCancelBind() {
 	zzsym.Assert(res.Removed == removed, "CancelBind.Removed differs from the model")
 	zzsym.Assert(res.PendingCount == s.size(), "CancelBind.PendingCount differs from the model")
 	if ok && wasCommitted {
-		zzsym.Reach("cancel-redelivery")
+		c32Reach("cancel-redelivery")
 		zzsym.Assert(!res.Removed && e.present && e.committed, "cancelling a failed re-delivery removed a committed entry")
 		sh := s.t.shard(c32SID(k))
 		kept, still := sh.byMessage[ackMessageKey{uid: c32UID(k), sessionID: c32SID(k), messageID: c32MID(k)}]
 		zzsym.Assert(still && kept.committed && kept.pending == e.row, "committed delivery lost or altered by a cancelled re-delivery")
 	}
 	if removed {
-		zzsym.Reach("cancel-removes-tentative")
+		c32Reach("cancel-removes-tentative")
 	}
 	if !ok {
-		zzsym.Reach("cancel-stale")
+		c32Reach("cancel-stale")
 	}
 }
 
@@ -490,15 +494,15 @@ func (s *c32State) ackKey(k int) {
 	}
 	e := &s.m[k]
 	if e.present {
-		zzsym.Reach("ack-hit")
+		c32Reach("ack-hit")
 		zzsym.Assert(found, "Ack missed an outstanding delivery")
 		zzsym.Assert(e.rowOK(got), "Ack returned a row that is not the delivery's")
 		if e.committed && len(e.attempts) > 0 {
-			zzsym.Reach("ack-committed-with-redelivery")
+			c32Reach("ack-committed-with-redelivery")
 		}
 		*e = c32Entry{}
 	} else {
-		zzsym.Reach("ack-miss")
+		c32Reach("ack-miss")
 		zzsym.Assert(!found && got == PendingRecvAck{}, "Ack matched a delivery that is not outstanding")
 	}
 }
@@ -536,10 +540,10 @@ func (s *c32State) opSessionClosed() {
 	got := s.t.SessionClosed(c32UID(base), c32SID(base))
 	n = s.checkRemoved(got, func(k int) bool { return k&^1 == base })
 	if n > 0 {
-		zzsym.Reach("session-removed")
+		c32Reach("session-removed")
 	}
 	if n > 1 {
-		zzsym.Reach("session-removed-several")
+		c32Reach("session-removed-several")
 	}
 }
 
@@ -586,7 +590,7 @@ func (s *c32State) opExpire() {
 func (s *c32State) expire(ttl time.Duration) {
 	got := s.t.Expire(ttl)
 	if ttl <= 0 {
-		zzsym.Reach("expire-nonpositive-ttl")
+		c32Reach("expire-nonpositive-ttl")
 		zzsym.Assert(len(got) == 0, "Expire with a non-positive ttl removed something")
 		return
 	}
@@ -598,11 +602,11 @@ func (s *c32State) expire(ttl time.Duration) {
 		}
 	}
 	if kept > 0 {
-		zzsym.Reach("expire-kept")
+		c32Reach("expire-kept")
 	}
 	n := s.checkRemoved(got, func(k int) bool { return s.idle(&s.m[k], ttlSec) })
 	if n > 0 {
-		zzsym.Reach("expire-removed")
+		c32Reach("expire-removed")
 	}
 }
 
@@ -611,7 +615,7 @@ func (s *c32State) opReset() {
 	for k := range s.m {
 		s.m[k] = c32Entry{}
 	}
-	zzsym.Reach("reset")
+	c32Reach("reset")
 }
 
 func (s *c32State) step() {
@@ -736,28 +740,35 @@ func Harness_C32_SessionLimit() {
 	s.drain()
 }
 
-// Harness_C32_ExpireTTL: the TTL is rounded up to whole seconds: an entry is removed exactly
-// when ttl <= (clock - delivery second) * 1s, for a symbolic ttl of up to 4 s.
+// Harness_C32_ExpireTTL: the TTL is rounded up to whole seconds: with ttl = q s + r ns
+// (0 <= r < 1e9) an entry is removed exactly when its age in seconds is >= q + (r > 0 ? 1 : 0),
+// i.e. exactly when age * 1s >= ttl.
 func Harness_C32_ExpireTTL() {
 	s := c32New(c32Tri, 0)
 	s.now = c32Time("now")
 	s.bindResult(0, false)
 	s.now = c32Time("now")
-	ttl := time.Duration(zzsym.I64("ttl"))
-	zzsym.Assume(ttl > 0 && ttl <= 4*time.Second)
-	age := s.now - s.m[0].attempts[0].row.DeliveredAt
-	zzsym.Assume(age >= -8 && age <= 8)
+	q := int64(zzsym.Choice("ttl.sec", 4))
+	r := int64(zzsym.U32("ttl.nsec") >> 2)
+	zzsym.Assume(r < 1000000000)
+	ttl := time.Duration(q)*time.Second + time.Duration(r)
+	zzsym.Assume(ttl > 0)
+	need := q
+	if r > 0 {
+		need++
+	}
 	got := s.t.Expire(ttl)
-	due := time.Duration(age)*time.Second >= ttl
+	due := s.m[0].attempts[0].row.DeliveredAt <= s.now-need
 	if len(got) == 0 {
-		zzsym.Reach("ttl-kept")
+		c32Reach("ttl-kept")
 		zzsym.Assert(!due, "an entry idle for at least the ttl was kept")
 	} else {
-		zzsym.Reach("ttl-removed")
+		c32Reach("ttl-removed")
 		zzsym.Assert(due, "an entry idle for less than the ttl was removed")
 		zzsym.Assert(len(got) == 1 && s.m[0].rowOK(got[0]), "Expire returned a foreign row")
 		s.m[0] = c32Entry{}
 	}
+	zzsym.Observe("ttl", uint64(ttl), uint64(len(got)))
 	s.checkCounts()
 	s.drain()
 }
